@@ -177,3 +177,21 @@ ADDENDA4 = {
 for _pid, _txt in ADDENDA4.items():
     if _pid in PROPS:
         PROPS[_pid]["explanation"] += _txt
+
+ADDENDA5 = {
+    "C01": " C01.12 also decides the polarity of is_identifier_valid.",
+    "C03": " C03.7 argument roles, qubit position element and initial state of the emulator; C03.8 the trace serialiser uses children only through self.visit (per occurrence).",
+    "C04": " C04.11 per-occurrence visiting in the macro expansion visitors.",
+    "C05": " C05.14 per-occurrence visiting in the let filler.",
+    "C06": " C06.11 per-occurrence visiting in the map filler; C06.12 the symbolic-dependence test is exhaustive; C06.13 the macro-register exemption is a conjunction.",
+    "C08": " C08.8 per-occurrence visiting in discovery and trace walkers; C08.9 polarity of the open/close/leave/fire tests; C08.10 readout indices start at 0.",
+    "C09": " C09.10 per-occurrence visiting in the subcircuit expander.",
+    "C10": " C10.14 per-occurrence visiting in all passes; C10.15 the macro-register exemption is a conjunction.",
+    "C13": " C13.12 per-occurrence visiting in the used-qubit visitors; C13.13 polarity of the scope helpers and use of the context argument.",
+    "C15": " C15.13 clip bounds, normalisation and cutoff of probabilities; C15.14 readout indices start at 0.",
+    "C19": " C19.7 per-occurrence visiting in the normaliser.",
+    "C20": " C20.9 field comparisons in __eq__ are equalities.",
+}
+for _pid, _txt in ADDENDA5.items():
+    if _pid in PROPS:
+        PROPS[_pid]["explanation"] += _txt
